@@ -98,8 +98,10 @@ impl Ntv2Grid {
                 // BaseGrid considers on the line to be in but by NTv2 standards points on
                 // either upper latitude or longitude are considered outside the grid.
                 // We explicitly check for this case here and keep trying if it happens.
+                // (the tolerance is the same small fraction of a cell as used above)
                 let (lat_n, lon_e) = (current_grid.lat_n, current_grid.lon_e);
-                if (coord[0] - lon_e).abs() < 1e-6 || (coord[1] - lat_n).abs() < 1e-6 {
+                let (tol_lat, tol_lon) = (1e-6 * current_grid.dlat.abs(), 1e-6 * current_grid.dlon.abs());
+                if (coord[0] - lon_e).abs() < tol_lon || (coord[1] - lat_n).abs() < tol_lat {
                     continue;
                 }
 
@@ -151,8 +153,10 @@ impl Grid for Ntv2Grid {
     }
 
     fn at(&self, coord: &Coor4D, margin: f64) -> Option<Coor4D> {
+        // The sub grid was selected with a little grace at its lower edges, so
+        // it must be evaluated with (at least) the same
         self.find_grid(coord, margin)
-            .and_then(|grid| grid.1.at(coord, margin))
+            .and_then(|grid| grid.1.at(coord, margin.max(1e-6)))
     }
 }
 
